@@ -568,7 +568,8 @@ class FnEmitter:
         # 'block2' (after) kinds come before 'block' (before) kinds at same offset
         def keyf(e):
             return (e[0], 0 if e[0] != e[1] else 1)
-        edits = sorted(enumerate(edits), key=lambda p: (p[1][0], p[0]))
+        # pure insertions at an offset come before a replacement that starts at the same offset
+        edits = sorted(enumerate(edits), key=lambda p: (p[1][0], 0 if p[1][0] == p[1][1] else 1, p[0]))
         segs = []
         pos = 0
         end = len(text) if upto is None else upto
